@@ -480,6 +480,7 @@ impl<'a> Printer<'a> {
             Stmt::Block(b) => format!("{}do\n{}{}end\n", i, self.block(b, lvl + 1, false), i),
             Stmt::Expr(e) => format!("{}{}\n", i, self.expr_pos(e, lvl, true)),
             Stmt::Unreachable => format!("{}<!>\n", i),
+            Stmt::Raw(lines) => lines.iter().map(|l| format!("{}{}\n", i, l)).collect(),
         }
     }
 
